@@ -123,7 +123,8 @@ impl Uni {
     /// `K.D.T` word of a record for the diff model: RRset key, data id, TTL
     fn kdt(&self, a: AR, ttl: u32) -> Option<String> {
         match a {
-            AR::Soa(id) if id != 999_999 => Some(format!("0.{}.{}", id, ttl)),
+            // in the diff model a SOA id carries the real 32-bit serial (the range check is in serial order)
+            AR::Soa(id) if id != 999_999 => Some(format!("0.{}.{}", self.soa_real(id), ttl)),
             AR::Other(k) if k != 9999 && k < 1000 => {
                 let (o, _, d) = &self.recs[(k % 100) as usize];
                 let kk = self.rrkey[&(o.to_string().to_ascii_lowercase(), d.rtype().to_string())];
@@ -132,14 +133,15 @@ impl Uni {
             _ => None,
         }
     }
+    fn soa_real(&self, id: u32) -> u64 { ((((id >> 1).wrapping_add(self.offset.get())) as u64) << 1) | (id & 1) as u64 }
     fn diff_txt(&self, d: &Option<InMemoryZoneDiff>) -> String {
         let Some(d) = d else { return "none".into() };
         let side = |m: &HashMap<(StoredName, Rtype), SharedRrset>| -> String {
             let mut v: Vec<(u32, String)> = m.iter().map(|((o, t), rrset)| {
                 let kk = self.rrkey.get(&(o.to_string().to_ascii_lowercase(), t.to_string())).cloned().unwrap_or(9999);
-                let mut ds: Vec<u32> = rrset.data().iter().map(|x| {
+                let mut ds: Vec<u64> = rrset.data().iter().map(|x| {
                     let soa = if let ZoneRecordData::Soa(s) = x { Some((s.serial().0, s.minimum().as_secs())) } else { None };
-                    match self.abs_of(&o.to_string(), *t, &x.to_string(), soa) { AR::Soa(i) => i, AR::Other(k) => k }
+                    match self.abs_of(&o.to_string(), *t, &x.to_string(), soa) { AR::Soa(i) => self.soa_real(i), AR::Other(k) => k as u64 }
                 }).collect();
                 ds.sort();
                 (kk, format!("{}:{}:{}", kk, rrset.ttl().as_secs(), ds.iter().map(|x| x.to_string()).collect::<Vec<_>>().join(".")))
@@ -156,6 +158,9 @@ impl Uni {
     fn concrete(&self, a: AR) -> (StoredName, Ttl, Data) {
         match a {
             AR::Soa(id) => (self.apex.clone(), Ttl::from_secs(3600), self.soa(id)),
+            AR::Other(k) if k >= 100_000 => {
+                (nm("host.example.test."), Ttl::from_secs(3600), ZoneRecordData::A(A::new(Ipv4Addr::from(0x0a00_0000u32 + (k - 100_000)))))
+            }
             AR::Other(k) if k >= 1000 => {
                 let txt: String = format!("bulk record {:05} ", k).repeat(11);
                 (nm(&format!("bulk-{}.example.test.", k)), Ttl::from_secs(42), ZoneRecordData::Txt(Txt::build_from_slice(txt.as_bytes()).unwrap()))
@@ -169,6 +174,9 @@ impl Uni {
             let serial = serial.wrapping_sub(self.offset.get());
             if min >= 300 && min <= 301 && serial < (1 << 30) { return AR::Soa((serial << 1) | (min - 300)); }
             return AR::Soa(999_999);
+        }
+        if rtype == Rtype::A && owner.eq_ignore_ascii_case("host.example.test") {
+            if let Ok(a) = Ipv4Addr::from_str(data_str) { let v = u32::from(a); if v >= 0x0a00_0000 && v < 0x0b00_0000 { return AR::Other(100_000 + (v - 0x0a00_0000)); } }
         }
         if let Some(rest) = owner.to_ascii_lowercase().strip_prefix("bulk-") {
             if let Some(n) = rest.split('.').next().and_then(|x| x.parse::<u32>().ok()) { if rtype == Rtype::TXT { return AR::Other(n); } }
@@ -661,10 +669,10 @@ fn run_stream(cx: &mut Ctx, label: &str, msgs: &[AMsg], comp: u8, z0: &Version, 
                 // histories outside the known defect classes (the model proves the diff applies for them):
                 // one batch, no DeleteAllRecords, published TTLs kept, only published-and-present records
                 // deleted, only neither-published-nor-present records added
-                let kdt = |w: &str| -> (u32, u32, u32) { let v: Vec<u32> = w.split('.').map(|x| x.parse().unwrap()).collect(); (v[0], v[1], v[2]) };
-                let mut pubm: BTreeMap<u32, (u32, BTreeSet<u32>)> = BTreeMap::new();
+                let kdt = |w: &str| -> (u32, u64, u32) { let v: Vec<u64> = w.split('.').map(|x| x.parse().unwrap()).collect(); (v[0] as u32, v[1], v[2] as u32) };
+                let mut pubm: BTreeMap<u32, (u32, BTreeSet<u64>)> = BTreeMap::new();
                 for w in &pubw { let (k, d, t) = kdt(w); let e = pubm.entry(k).or_insert((t, BTreeSet::new())); e.1.insert(d); }
-                let mut work: BTreeMap<u32, BTreeSet<u32>> = pubm.iter().map(|(k, v)| (*k, v.1.clone())).collect();
+                let mut work: BTreeMap<u32, BTreeSet<u64>> = pubm.iter().map(|(k, v)| (*k, v.1.clone())).collect();
                 let body: &[String] = if ops.first().map(|o| o == "BD").unwrap_or(false) { &ops[1..] } else { &ops[..] };
                 let mut good = z0_has_soa && body.last().map(|o| o.starts_with("F:")).unwrap_or(false);
                 if good {
@@ -789,6 +797,30 @@ fn abort_case(cx: &mut Ctx, r: &mut Rng, chain: &[Version], other: Option<&Versi
             &format!("after abort at update {} and a complete IXFR {}->{} readers see {:?}", p, vis.soa, target.soa, a2.final_content));
         for (cls, d) in a1.diff_bad.iter().chain(a2.diff_bad.iter()) { cx.chk(false, cls, &case, d); }
     }
+}
+
+/// A transfer with more records than a 16-bit counter holds, spread over many messages
+/// (interpreter only): exactly one DeleteAllRecords, every record as AddRecord in order, Finished.
+fn large_case(cx: &mut Ctx, qtype: u16, total: u32, per: usize) {
+    let uni = cx.uni;
+    cx.place(0, &[0]);
+    let case = format!("xl {} {} {}", qtype, total, per);
+    cx.out.begin(&case);
+    let mut recs: Vec<AR> = vec![AR::Soa(14)];
+    recs.extend((0..total).map(|i| AR::Other(100_000 + i)));
+    recs.push(AR::Soa(14));
+    let wire: Vec<Vec<u8>> = recs.chunks(per).map(|c| build_msg(uni, &AMsg::good(true, true, qtype, c.to_vec()), 1)).collect();
+    let run = run_interp(uni, &wire);
+    let (mut da, mut ad, mut fi, mut ot, mut inorder, mut next) = (0u32, 0u32, 0u32, 0u32, true, 100_000u32);
+    for (_, s, _) in &run.upds {
+        if s == "DA" { da += 1 } else if let Some(k) = s.strip_prefix("A.O") { if k.parse::<u32>().ok() != Some(next) { inorder = false; } next += 1; ad += 1 }
+        else if s.starts_with("F.") { fi += 1 } else { ot += 1 }
+    }
+    cx.out.case(&case, &format!("DA={} A={} inorder={} F={} other={} {}", da, ad, inorder as u8, fi, ot, st_str(&run.st)), true, "xl");
+    cx.chk(run.st != St::Panic, "panic_xfr", &case, "interpreter panicked on a large valid transfer");
+    cx.chk(run.st == St::Done && da == 1 && ad == total && inorder && fi == 1 && ot == 0,
+        if qtype == 252 { "axfr_content_mismatch" } else { "ixfr_content_mismatch" }, &case,
+        &format!("large transfer: status {:?} DeleteAll={} Add={} in order={} Finished={} other={}", run.st, da, ad, inorder, fi, ot));
 }
 
 // ---------------------------------------------------------------- the stream client (end-of-transfer detection)
@@ -1411,6 +1443,13 @@ fn main() {
             let comp = fr.below(3) as u8;
             abort_case(&mut cx, &mut fr, &chain, other.as_ref(), comp);
         }
+    }
+
+    // ---- transfers with more than 65535 records in all ----
+    large_case(&mut cx, 252, 70_000, 2_000);
+    large_case(&mut cx, 251, 65_535, 2_000);
+    if a.thorough {
+        for t in [65_533u32, 65_534, 65_535, 65_536, 131_073] { large_case(&mut cx, 252, t, 2_000); large_case(&mut cx, 251, t, 1_999); }
     }
 
     // ---- streams produced by the real sender (XfrMiddlewareSvc + batcher) ----
